@@ -56,15 +56,16 @@ theorem exec_evalFromList_table (n : Nat) (env : Env) (schema name alias full : 
 
 
 /-- ORDER BY over output rows: a permutation of the rows, sorted by their keys `K` -/
-theorem exec_sortOut (n : Nat) (env : Env) (cols : List String) (rows : List OutRow) (order : List OrderItem) (hne : order ≠ [])
+theorem exec_sortOut' (n : Nat) (env : Env) (cols : List String) (rows : List OutRow) (order : List OrderItem) (hne : order ≠ [])
     (s : St) (K : OutRow → List Value) (c : List Value → List Value → Ordering) (S : List Value → Prop)
     (hkey : ∀ r ∈ rows, (order.mapM (orderKeyM (cbs n) s.w.types env cols r)).exec s = (.ok (K r), s))
     (hcmp : CmpOk (fun (a b : List Value × OutRow) => cmpOrderKeys a.1 b.1 (orderDescs order) (orderNulls order))
       (fun a b => c a.1 b.1) (fun a => S a.1))
     (hS : ∀ r ∈ rows, S (K r))
-    (htie : ∀ l : List (List Value × OutRow), l.Perm (rows.map (fun r => (K r, r))) → ∃ b, hasTieR l = .ok b) :
+    (Pt : Bool → Prop)
+    (htie : ∀ l : List (List Value × OutRow), l.Perm (rows.map (fun r => (K r, r))) → ∃ b, hasTieR l = .ok b ∧ Pt b) :
     ∃ sorted tie, (sortOut (n + 1) env cols rows order).exec s = (.ok (cols, sorted), s.tie tie) ∧ sorted.Perm rows ∧
-      sorted.Pairwise (fun a b => c (K b) (K a) ≠ .lt) := by
+      sorted.Pairwise (fun a b => c (K b) (K a) ≠ .lt) ∧ Pt tie := by
   have hkeyed : (rows.mapM (fun r => do
       let ks ← order.mapM (orderKeyM (cbs n) s.w.types env cols r)
       pure (ks, r))).exec s = (.ok (rows.map (fun r => (K r, r))), s) := by
@@ -73,8 +74,8 @@ theorem exec_sortOut (n : Nat) (env : Env) (cols : List String) (rows : List Out
     simp only [exec_bind, hkey r hr, exec_pure]
   obtain ⟨ys, h1, h2, h3⟩ := sortKeyed_spec (orderDescs order) (orderNulls order) c S hcmp (rows.map (fun r => (K r, r)))
     (by intro a ha; obtain ⟨r, hr, rfl⟩ := List.mem_map.mp ha; exact hS r hr)
-  obtain ⟨tie, ht⟩ := htie ys h2
-  refine ⟨ys.map (·.2), tie, ?_, ?_, ?_⟩
+  obtain ⟨tie, ht, hpt⟩ := htie ys h2
+  refine ⟨ys.map (·.2), tie, ?_, ?_, ?_, hpt⟩
   · cases order with
     | nil => exact absurd rfl hne
     | cons o os =>
@@ -95,6 +96,37 @@ theorem exec_sortOut (n : Nat) (env : Env) (cols : List String) (rows : List Out
     obtain ⟨ra, _, rfl⟩ := List.mem_map.mp ((h2.mem_iff).mp ha)
     obtain ⟨rb, _, rfl⟩ := List.mem_map.mp ((h2.mem_iff).mp hb)
     exact hab
+
+theorem exec_sortOut (n : Nat) (env : Env) (cols : List String) (rows : List OutRow) (order : List OrderItem) (hne : order ≠ [])
+    (s : St) (K : OutRow → List Value) (c : List Value → List Value → Ordering) (S : List Value → Prop)
+    (hkey : ∀ r ∈ rows, (order.mapM (orderKeyM (cbs n) s.w.types env cols r)).exec s = (.ok (K r), s))
+    (hcmp : CmpOk (fun (a b : List Value × OutRow) => cmpOrderKeys a.1 b.1 (orderDescs order) (orderNulls order))
+      (fun a b => c a.1 b.1) (fun a => S a.1))
+    (hS : ∀ r ∈ rows, S (K r))
+    (htie : ∀ l : List (List Value × OutRow), l.Perm (rows.map (fun r => (K r, r))) → ∃ b, hasTieR l = .ok b) :
+    ∃ sorted tie, (sortOut (n + 1) env cols rows order).exec s = (.ok (cols, sorted), s.tie tie) ∧ sorted.Perm rows ∧
+      sorted.Pairwise (fun a b => c (K b) (K a) ≠ .lt) := by
+  obtain ⟨sorted, tie, h1, h2, h3, _⟩ := exec_sortOut' n env cols rows order hne s K c S hkey hcmp hS (fun _ => True)
+    (fun l hl => by obtain ⟨b, hb⟩ := htie l hl; exact ⟨b, hb, trivial⟩)
+  exact ⟨sorted, tie, h1, h2, h3⟩
+
+
+theorem sameGroupKey_ok : ∀ (xs ys : List Value), (∀ p ∈ xs.zip ys, ∃ o, compareForSort p.1 p.2 = .ok o) →
+    ∃ b, sameGroupKey xs ys = .ok b := by
+  intro xs
+  induction xs with
+  | nil => intro ys _; cases ys <;> exact ⟨_, rfl⟩
+  | cons x xs ih =>
+    intro ys h
+    cases ys with
+    | nil => exact ⟨_, rfl⟩
+    | cons y ys =>
+      obtain ⟨o, ho⟩ := h (x, y) (by simp)
+      obtain ⟨b, hb⟩ := ih ys (fun p hp => h p (by simp [hp]))
+      simp only [sameGroupKey, ho, bind, Except.bind]
+      cases (o == Ordering.eq)
+      · exact ⟨false, rfl⟩
+      · exact ⟨b, hb⟩
 
 
 /-! ### SELECT -/
